@@ -12,6 +12,7 @@ NOTICE_OID = "1.3.6.1.4.1.1466.20036"
 SMALL_LENS = [0, 0, 1, 1, 2, 3, 5, 8, 13]
 EDGE_LENS = [126, 127, 128, 129, 254, 255, 256, 257]
 BIG_LENS = [65534, 65535, 65536, 65537]
+MID_LENS = [300, 1000, 4095, 4096, 4097, 16383, 16384, 32767, 32768, 32769]
 
 INT_EDGES = [
     0, 1, -1, 2, 3, 127, -127, 128, -128, 129, -129, 255, -255, 256, -256, 257, -257,
@@ -56,8 +57,11 @@ def g_len(r: random.Random, p: Profile) -> int:
         return r.randrange(0, 40)
     if not p.allow_big:
         return r.randrange(0, 60)
-    if r.randrange(p.big_rate) < 4:
+    k = r.randrange(p.big_rate)
+    if k < 4:
         return r.choice(BIG_LENS)
+    if k < 12:
+        return r.choice(MID_LENS)
     return r.choice(EDGE_LENS)
 
 
